@@ -63,6 +63,16 @@ def articulation_points[S](
         return Result(set(), 0, 0, n)
 
     node_set = set(node_list)
+    # Undirected: an edge listed on one side only still counts for both endpoints
+    adj: dict[S, list[S]] = {v: [] for v in node_list}
+    seen_edges: set[tuple[S, S]] = set()
+    for v in node_list:
+        for w in neighbors(v):
+            if w in node_set and w != v and (v, w) not in seen_edges:
+                seen_edges.add((v, w))
+                seen_edges.add((w, v))
+                adj[v].append(w)
+                adj[w].append(v)
     discovery: dict[S, int] = {}
     low: dict[S, int] = {}
     parent: dict[S, S | None] = {}
@@ -79,10 +89,7 @@ def articulation_points[S](
         low[v] = time[0]
         time[0] += 1
 
-        for w in neighbors(v):
-            if w not in node_set:
-                continue
-
+        for w in adj[v]:
             if w not in discovery:
                 children += 1
                 parent[w] = v
@@ -126,6 +133,16 @@ def bridges[S](
         return Result([], 0, 0, n)
 
     node_set = set(node_list)
+    # Undirected: an edge listed on one side only still counts for both endpoints
+    adj: dict[S, list[S]] = {v: [] for v in node_list}
+    seen_edges: set[tuple[S, S]] = set()
+    for v in node_list:
+        for w in neighbors(v):
+            if w in node_set and w != v and (v, w) not in seen_edges:
+                seen_edges.add((v, w))
+                seen_edges.add((w, v))
+                adj[v].append(w)
+                adj[w].append(v)
     discovery: dict[S, int] = {}
     low: dict[S, int] = {}
     parent: dict[S, S | None] = {}
@@ -141,10 +158,7 @@ def bridges[S](
         low[v] = time[0]
         time[0] += 1
 
-        for w in neighbors(v):
-            if w not in node_set:
-                continue
-
+        for w in adj[v]:
             if w not in discovery:
                 parent[w] = v
                 dfs(w)
